@@ -105,7 +105,34 @@ def c_runtime(repo: Repo, big_endian: bool = False) -> Lang:
     return repo.memo("flows:c:be" if big_endian else "flows:c:le", build)
 
 
-def compiler_flow(repo: Repo, cls_name: str, rel_hint: Optional[str] = None, inline: Optional[Callable[[str, ast.FunctionDef], bool]] = None, **kw: Any) -> PyFlow:
+def value_kind_decider(kind: str, subject: str = "value") -> Callable[[Any], Optional[bool]]:
+    """Decides the literals of a dispatch on the Python kind of a schema value
+    (`true` / `false` / `int` / `str`): isinstance tests (bool is an int),
+    identity tests against True / False, truthiness is left open."""
+    from .normal import show
+
+    def dec(key: Any) -> Optional[bool]:
+        if key[0] == "isinstance" and show(key[1]) == subject:
+            names = set(key[2])
+            if kind in ("true", "false"):
+                return bool(names & {"bool", "int"})
+            return kind in names
+        if key[0] in ("isbool", "eqbool") and subject in (show(key[1]), show(key[2])):
+            other = key[1] if show(key[2]) == subject else key[2]
+            cv = other.const_value()
+            if cv is None:
+                return None
+            if kind in ("true", "false"):
+                return bool(cv) == (kind == "true")
+            if kind == "str":
+                return False
+            return False if key[0] == "isbool" else None  # an int may == True
+        return None
+
+    return dec
+
+
+def compiler_flow(repo: Repo, cls_name: str, rel_hint: Optional[str] = None, inline: Optional[Callable[[str, ast.FunctionDef], bool]] = None, module_funcs: bool = False, **kw: Any) -> PyFlow:
     """Path engine for methods of a compiler class: methods are resolved
     through the MRO of that (concrete) class, abstract hooks are never inlined,
     class-level and module-level literal constants are visible."""
@@ -146,5 +173,5 @@ def compiler_flow(repo: Repo, cls_name: str, rel_hint: Optional[str] = None, inl
             return False
         return inline(name, fn) if inline is not None else True
 
-    kw.setdefault("funcs", {})
+    kw.setdefault("funcs", funcs if module_funcs else {})
     return PyFlow(methods=methods, consts=consts, inline_filter=flt, **kw)
